@@ -189,6 +189,11 @@ def _flag_shard(arg):
                      "options=[%r, opts.define('DEF', %r)], link_options=[%r], "
                      "link_options_private=['-Wl,--priv', '-u', 'priv_sym'], requires=['otherpkg'], auto_fill=%r)"
                      % (incname.replace("'", ''), '-DOPT=' + opt, opt, '-Wl,--x=' + opt.replace(',', ''), auto))
+        # things auto_fill could pick up: installed headers and libraries; two packages that say
+        # explicitly that they have NO libraries / NO include directories
+        lines.append("install(lib, inc2)")
+        lines.append("pkg_config('hdronly', version='1.0', includes=[inc2], libs=[], auto_fill=True)")
+        lines.append("pkg_config('binonly', version='1.0', includes=[], libs=[lib], auto_fill=True)")
         files['build.bfg'] = '\n'.join(lines) + '\n'
         pr = proj.Proj(os.path.join(root, 'p'), 'make', files, files['build.bfg'],
                        args=['--prefix=' + os.path.join(inst, 'pre fix'), '--enable-static'])
@@ -235,6 +240,13 @@ def _flag_shard(arg):
             if rc != 0 or [l.split()[0] for l in out.splitlines() if l.strip()] != ['otherpkg']:
                 problems.append('%s --print-requires: %r' % (tag, out))
         pcdir = os.path.join(pr.bld, 'pkgconfig')
+        for pcn, flag, bad in (('hdronly-uninstalled', '--libs', '-l'), ('binonly-uninstalled', '--cflags', '-I')):
+            rc, out, err = pkgconf([flag, pcn], [pcdir])
+            got = sh_split(out)
+            if rc != 0:
+                problems.append('%s %s fails: %s' % (pcn, flag, err[-150:]))
+            elif any(w.startswith(bad) for w in got):
+                problems.append('%s %s: %r although the script declared an empty list' % (pcn, flag, got))
         check('uninstalled', 'mypkg-uninstalled', [pcdir], pr.bld if libkind != 'shared' else
               os.path.join(pr.bld, 'sub'), exp_c_un)
         # installed form, through a real install into DESTDIR
